@@ -52,6 +52,9 @@ type Wal struct {
 	Imported bool // restored from its mnemonic in this instance (addresses all of the standard class)
 }
 
+// initialAddrs: addresses issued when a wallet is created (0 in gap replays, which issue their own)
+var initialAddrs = NumAddrs
+
 // Gate parks the handler goroutine at the top of its loop.
 type Gate struct {
 	mu          sync.Mutex
@@ -349,7 +352,7 @@ func (w *World) createWallet(name string) error {
 	if _, err := w.W.UseWallet(id); err != nil {
 		return err
 	}
-	for k := 0; k < NumAddrs; k++ {
+	for k := 0; k < initialAddrs; k++ {
 		class := uint16(massutil.AddressClassWitnessV0)
 		if k == 2 {
 			class = massutil.AddressClassWitnessStaking
@@ -1165,6 +1168,7 @@ type Options struct {
 	Sweep     bool     `json:"sweep"`
 	Api       string   `json:"api"`
 	Park      int64    `json:"park"`
+	Gap       json.RawMessage `json:"gaphist"`
 }
 
 // Run dispatches on the replay mode ("" = plain conformance replay).
@@ -1186,6 +1190,8 @@ func Run(u *Universe, h History, dir, mode string, opt Options) Result {
 		return CountQueryCalls(u, h, dir, opt.Api)
 	case "txbuild":
 		return ReplayTxBuild(u, h, dir, opt.Seed, opt.Sweep)
+	case "gap":
+		return ReplayGap(opt.Gap, dir)
 	case "stop-schedule":
 		return StopSchedule(u, opt.Actions, opt.Tasks, opt.Final, dir)
 	}
